@@ -158,6 +158,9 @@ def phyclone_frame(exc):
 
 def crash_violation(component, exc, tags=None):
     fr = phyclone_frame(exc)
+    if fr is None:
+        # no frame of the code under test on the stack: this is a bug of the harness, never a property violation
+        raise HarnessError("harness exception in %s: %s" % (component, "".join(traceback.format_exception(type(exc), exc, exc.__traceback__))[-1500:]))
     comp = "%s/%s@%s" % (component, type(exc).__name__, fr or "harness")
     t = dict(tags or {})
     t.update(exc_type=type(exc).__name__, frame=fr)
